@@ -4,6 +4,8 @@
 package apisim
 
 import (
+	"sync"
+	"time"
 	"bytes"
 	"encoding/json"
 	"fmt"
@@ -36,7 +38,7 @@ func init() { sim.Register(&Engine{}, "C17") }
 func (e *Engine) Describe(prop string) sim.PropInfo {
 	return sim.PropInfo{Level: "exploration",
 		Rule: "one server (the routes of commands/webui.go over a real MultiRepoCache) and two client populations: anonymous (router without the auth middleware = read-only web UI) and authenticated (router with auth.Middleware); the mutation list and every input type are discovered by GraphQL introspection of the served schema at run time; per run a generated sequence of requests: every discovered mutation with generated valid and invalid arguments (bug and comment prefixes, texts, label lists, file hashes, repository references), uploads of valid and invalid files, and queries in between, each sent by a drawn client; non-trivial = run with at least one anonymous mutation and one accepted authenticated mutation; distinct = distinct request-sequence hash",
-		Kinds: []string{"anonymous-mutation-accepted", "anonymous-upload-accepted", "state-changed-without-user", "query-refused", "wrong-author", "wrong-change", "returned-bug-differs", "collateral-change", "panic"},
+		Kinds: []string{"anonymous-mutation-accepted", "anonymous-upload-accepted", "state-changed-without-user", "query-refused", "wrong-author", "wrong-change", "returned-bug-differs", "collateral-change", "request-never-completes", "panic"},
 		Real:  []string{"api/graphql (generated gqlgen server, resolvers)", "api/http upload and file handlers", "api/auth middleware and context", "cache.MultiRepoCache / RepoCache", "gorilla/mux router assembled like commands/webui.go"},
 		Stub:  []string{"HTTP transport: requests go through ServeHTTP with a recorder (no sockets)", "wall clock, crypto/rand.Reader"},
 		Assumptions: []string{
@@ -232,6 +234,11 @@ func (e *Engine) Execute(p *sim.Plan, keepLog bool) (res *sim.RunResult) {
 	}
 	defer func() {
 		if r := recover(); r != nil {
+			if msg := fmt.Sprint(r); strings.HasPrefix(msg, "verif: the lock wanted at ") {
+				// the leaked-lock probe fired on the harness's own goroutine (a look at a bug between two requests)
+				add("request-never-completes", "a read of a bug would have blocked for ever: %s", strings.TrimPrefix(msg, "verif: "))
+				return
+			}
 			res.HarnessErr = fmt.Sprintf("harness panic at step %d: %v", step, r)
 		}
 	}()
@@ -308,7 +315,59 @@ func (e *Engine) Execute(p *sim.Plan, keepLog bool) (res *sim.RunResult) {
 
 	var seq []string
 	anonMut, authOk := 0, 0
+	// A request that blocks on a lock nobody will ever release would hang the simulation. Every
+	// instrumented lock acquisition is probed first; a lock that stays taken for two seconds of
+	// real time while the server is otherwise idle was leaked by an earlier request (the server
+	// handles one request at a time here), and the request is abandoned there.
+	var leaked []string
+	var leakMu sync.Mutex
+	verifrt.SetSchedHooks(func(m interface{}, mode string, site string) {
+		free := func() bool {
+			switch l := m.(type) {
+			case *sync.RWMutex:
+				if mode == "r" {
+					if l.TryRLock() {
+						l.RUnlock()
+						return true
+					}
+					return false
+				}
+				if l.TryLock() {
+					l.Unlock()
+					return true
+				}
+				return false
+			case *sync.Mutex:
+				if l.TryLock() {
+					l.Unlock()
+					return true
+				}
+				return false
+			}
+			return true
+		}
+		if free() {
+			return
+		}
+		deadline := time.Now().Add(2 * time.Second)
+		for !free() {
+			if time.Now().After(deadline) {
+				leakMu.Lock()
+				leaked = append(leaked, site)
+				leakMu.Unlock()
+				panic(fmt.Sprintf("verif: the lock wanted at %s is held by no running request", site))
+			}
+			time.Sleep(time.Millisecond)
+		}
+	}, nil)
+	defer verifrt.SetSchedHooks(nil, nil)
 	for i := range p.Steps {
+		leakMu.Lock()
+		nLeaked := len(leaked)
+		leakMu.Unlock()
+		if nLeaked > 0 {
+			break
+		}
 		st := &p.Steps[i]
 		step = i
 		res.Steps++
@@ -491,6 +550,10 @@ func (e *Engine) Execute(p *sim.Plan, keepLog bool) (res *sim.RunResult) {
 	res.LogHash = model.Sha256Hex([]byte(strings.Join(seq, "\n")))[:16]
 	if anonMut > 0 && authOk > 0 {
 		res.NTKey = "anon+auth"
+	}
+	if len(leaked) > 0 {
+		add("request-never-completes", "a request would have blocked for ever: the lock wanted at %s was left taken by an earlier request (last requests: %s)", leaked[0], strings.Join(seq[max(0, len(seq)-3):], " | "))
+		return res // closing the cache would block on the same lock
 	}
 	_ = gh.Close()
 	_ = entity.UnsetId
